@@ -245,3 +245,26 @@ func (mgr *Manager) VerifStopConverterProcesses() {
 	}
 	<-c
 }
+
+// VerifConverterCreated delivers what the watcher's timer posts after a Create event for path: the executable is
+// added as a converter (a cache file of that name that is still there is opened again).
+func (mgr *Manager) VerifConverterCreated(path string) {
+	c := make(chan struct{})
+	mgr.jobs <- func() {
+		defer close(c)
+		fileInfo, err := os.Stat(path)
+		if err != nil || fileInfo.IsDir() {
+			return
+		}
+		if err := mgr.addConverter(path); err != nil {
+			log.Printf("error while adding converter: %v", err)
+			return
+		}
+		name := strings.TrimSuffix(filepath.Base(path), filepath.Ext(path))
+		mgr.event(Event{
+			Type:      "converterAdded",
+			Converter: mgr.converters[name].Statistics(),
+		})
+	}
+	<-c
+}
